@@ -1826,9 +1826,9 @@ class RTCSctpTransport(AsyncIOEventEmitter):
                 # emit channel
                 self.emit("datachannel", channel)
             elif msg_type == DATA_CHANNEL_ACK:
-                assert stream_id in self._data_channels
-                channel = self._data_channels[stream_id]
-                if channel.readyState == "connecting":
+                # the channel may have been closed before its ACK arrives
+                channel = self._data_channels.get(stream_id)
+                if channel is not None and channel.readyState == "connecting":
                     channel._setReadyState("open")
         elif pp_id == WEBRTC_STRING and stream_id in self._data_channels:
             # emit message
